@@ -80,6 +80,9 @@ def dump_diff(a, b):
 
 # ---- independent XML comparison ---------------------------------------------------------------------------------------------
 
+STRICT_VALUE_LISTS = True      # one <value> element per value: 'A,B' in one element is not the list [A, B]
+
+
 def norm_attrs(attrs, drop=()):
     out = {}
     for k, v in attrs.items():
@@ -87,6 +90,8 @@ def norm_attrs(attrs, drop=()):
             continue
         if v is True:
             out[k] = True
+        elif STRICT_VALUE_LISTS:
+            out[k] = tuple(sorted(str(x) for x in as_list(v)))
         else:
             vals = []
             for x in as_list(v):
@@ -399,6 +404,11 @@ def edits_menu(root):
                     attrs["valueClass"] = vcs
                 add_node(p, "#", "the value", attrs, lib)
             menu.append((f"add-value-taking-node:{len(ucs)}u{len(vcs)}v", add_value))
+        # a '#' child that carries a value class but no takesValue attribute (compliant; every bundled '#' has takesValue)
+        def add_value_plain(rt):
+            p = add_node(find(rt, names[0]), "Zq-valued-plain", "takes a value", {}, lib)
+            add_node(p, "#", "the value", {"valueClass": [value_classes[0]]}, lib)
+        menu.append(("add-value-taking-node:no-takesValue", add_value_plain))
     removable = [x for x in leaf_names if x not in referenced(root)][-3:]
     for nm in removable[:2]:
         def remove_leaf(rt, nm=nm):
